@@ -567,3 +567,86 @@ func H_C14_map_results_may_be_nil() {
 	verifAssert(ms.Count() == 1 && mb.Count() == 1 && mf.Count() == 1, "MapX yields one result per element of kind X")
 	verifReach("end")
 }
+
+// Reduce with every kind of initial accumulator (nil included): the function sees the initial value first
+// and is called once per element, whatever the initial value is.
+func H_C14_reduce_initial_values() {
+	verifBound("LISTN", 3)
+	n := nondetIntRange(0, 3)
+	l := hMixedList(n)
+	snap := hSnapList(l, false)
+	var init any
+	switch nondetIntRange(0, 4) {
+	case 0:
+		init = nil
+	case 1:
+		init = nondetInt()
+	case 2:
+		init = ""
+	case 3:
+		init = NewList()
+	default:
+		init = false
+	}
+	calls := 0
+	firstOK, elemsOK := true, true
+	var acc any = init
+	out := l.Reduce(init, func(a, x any) any {
+		if calls == 0 {
+			firstOK = a == init
+		}
+		if calls < n {
+			elemsOK = verifAnd(elemsOK, hSameShallow(hMv(snap.elem[calls].kind, x), snap.elem[calls]))
+		}
+		calls++
+		acc = 100 + calls
+		return acc
+	})
+	verifAssert(calls == n, "Reduce calls the function once per element")
+	verifAssert(firstOK && elemsOK, "Reduce is the left fold over all elements in order")
+	verifAssert(out == acc, "Reduce returns the last accumulator")
+	verifReach("end")
+}
+
+// typed views called from inside the callback of another typed view (on the same and on another list): the
+// outer call's visits and results are what they are without the inner calls
+func H_C14_nested_calls() {
+	x, y, z := nondetInt(), nondetInt(), nondetInt()
+	a := NewList(x, "s", y, NewList(z, z), z)
+	b := NewList(y, z, x, x)
+	for round := 0; round < 2; round++ { // the second round runs after the first has been through every path once
+		var seen []int
+		res := a.MapInts(func(v int) any {
+			seen = append(seen, v)
+			in1 := b.MapInts(func(w int) any { return w })
+			in2 := a.Map(func(i int, w any) any { return i })
+			a.ForEachInt(func(w int) {})
+			b.FilterInts(func(w int) bool { return true })
+			return NewList(in1.Count(), in2.Count(), v)
+		})
+		ok := len(seen) == 3 && seen[0] == x && seen[1] == y && seen[2] == z && res.Count() == 3
+		for j := 0; ok && j < 3; j++ {
+			r, isL := res.Get(j).(List)
+			ok = isL && r.Count() == 3 && r.GetInt(0) == 4 && r.GetInt(1) == 5 && r.GetInt(2) == seen[j]
+		}
+		verifAssert(ok, "MapInts stores the results in call order")
+		outer := a.Map(func(i int, v any) any {
+			if l, isL := v.(List); isL {
+				return l.MapInts(func(w int) any { return w })
+			}
+			return a.MapStrings(func(s string) any { return i })
+		})
+		ok = outer.Count() == 5
+		for j := 0; ok && j < 5; j++ {
+			r, isL := outer.Get(j).(List)
+			if j == 3 {
+				ok = isL && r.Count() == 2 && r.GetInt(0) == z && r.GetInt(1) == z
+			} else {
+				ok = isL && r.Count() == 1 && r.GetInt(0) == j
+			}
+		}
+		verifAssert(ok, "Map stores the results in order")
+	}
+	verifAssert(a.Count() == 5 && b.Count() == 4, "typed views do not modify the list")
+	verifReach("end")
+}
